@@ -166,6 +166,8 @@ def k_float(x=0.0):
 
 def k_round(x, nd=None):
     """builtin round: half to even"""
+    if isinstance(x, SFloat) and not isinstance(x, DecFloat) and (nd in (None, 0)):
+        return x.__round__(nd)
     if isinstance(x, SRat):
         nd_ = 0 if nd is None else int(nd)
         return RatDecimal(x).quantize(Fraction(10) ** (-nd_), decimal.ROUND_HALF_EVEN).rat
